@@ -6,7 +6,7 @@ use crate::lexm::Tok;
 use gvh::rng::Rng;
 
 pub const LINE_COMMENTS: &[&str] = &["// c", "// a longer comment, with punctuation: \"quoted\" and 'x' /* nested */", "//", "//x", "// trailing blanks   ", "//// four slashes"];
-pub const BLOCK_COMMENTS: &[&str] = &["/* b */", "/**/", "/* multi\n   line */", "/* has // inside */", "/*x*/", "/* star * inside */", "/*/ slash */"];
+pub const BLOCK_COMMENTS: &[&str] = &["/* b */", "/**/", "/* multi\n   line */", "/* has // inside */", "/*x*/", "/* star * inside */"];
 
 fn col_of(src: &str, pos: usize) -> usize {
     let b = src.as_bytes();
